@@ -868,7 +868,7 @@ func main() {
 		emit(fmt.Sprintf("enc - g%d.7.3,h0102,r%d.5", 1024*1024+17, 40000))
 
 		// Decoder on arbitrary streams.
-		big := c.Size(40000, 400000)
+		big := c.Size(40000, 60000)
 		invalidPayloads := [][]byte{{0x07}, {0x0a}, {0x0a, 0x05, 0x01}, {0x0f, 0x00}, {0x0a, 0x80}}
 		// Sizes just above the limit (a decoder that wrongly accepts them allocates ~100 MiB,
 		// which the run survives) and sizes no allocator accepts; nothing in between: a
@@ -884,7 +884,7 @@ func main() {
 			c.Count("dec:boundary")
 		}
 		atLimit := 0
-		for i := 0; i < c.Size(6000, 80000); i++ {
+		for i := 0; i < c.Size(6000, 40000); i++ {
 			var segs []string
 			total := 0
 			add := func(s string) {
@@ -983,14 +983,14 @@ func main() {
 		algs := supportedAlgorithms()
 		c.Note("supported algorithms: " + strings.Join(algs, ","))
 		bufs := []int{16, 17, 64, 1000, 4096, 65536}
-		for i := 0; i < c.Size(3000, 40000); i++ {
+		for i := 0; i < c.Size(3000, 20000); i++ {
 			alg := algs[i%len(algs)]
 			nops := 1 + r.Intn(10)
 			ops := make([]string, 0, nops)
 			total := 0
 			bigHere := 2000
 			if r.Chance(1, 16) {
-				bigHere = c.Size(50000, 400000)
+				bigHere = c.Size(50000, 150000)
 			}
 			for j := 0; j < nops; j++ {
 				if r.Chance(1, 3) {
